@@ -482,6 +482,14 @@ var fmtMinimalS = []string{
 	`scalar Query`,
 	`enum Query { A }`,
 	`type A { x: Int } union Query = A`,
+	// types named like default roots that are not roots and not objects (the block must be printed: inference
+	// from default names would otherwise pick them up and the root-kind rule would reject the text)
+	`schema { query: Query } type Query { f: Int } scalar Mutation`,
+	`schema { query: Query } type Query { f: Int } enum Subscription { A }`,
+	`schema { query: Query } type Query { f: Int } input Mutation { a: Int } interface Subscription { a: Int }`,
+	`schema { query: Q } type Q { f: Int } union Query = Q`,
+	`schema { query: Query mutation: M } type Query { f: Int } type M { g: Int } scalar Subscription`,
+	`type Query { f(a: Int = -0, b: Float = -0.0, c: [Int] = [-0]): Int @d(x: -0) } directive @d(x: Int = -0) on FIELD_DEFINITION`,
 	// an extension of a type of the prelude: FormatSchema skips built-in types altogether
 	`type Query { a: Int } extend type __Type { extra: Int }`,
 	`type Query { a: Int } directive @x on SCALAR extend scalar String @x`,
